@@ -13,6 +13,9 @@ Generator families per tag type
             TA/TB/TC + historical bytes, SENSB_RES/ATTRIB variants, HR0/HR1,
             SENSF_RES with/without system code, GET_VERSION / AUTHENTICATE
             answers, NAK anywhere)
+  t4t-failat  memory-backed Type 4 tag with a valid NDEF application that
+            fails at the k-th APDU (silent, error status word, cut answer),
+            exhaustively over k, failure mode and a grid of configurations
 
 Oracle: nfc.tag.activate() returns None or a Tag; tag.ndef, and on an NDEF
 object length / capacity / octets / has_changed, return without any
@@ -395,6 +398,121 @@ def run_t4(case, ctx):
           area=area, check_octets=check)
 
 
+# ------------------------------------ T4T: card fails at the k-th APDU
+class FailApp(isodep_card.T4App):
+    """valid NDEF tag application that fails from / at its k-th APDU.
+
+    fail = [k, mode, arg]; the APDUs of a session are counted from 1.
+      silent     the card is gone from APDU k on (no block is answered)
+      mute-once  APDU k is executed but never answered, later ones are
+      sw-once    APDU k alone is answered with status word arg
+      sw-from    APDU k and every later one are answered with status arg
+      short      the answer to APDU k is cut: arg = "empty" (no byte at all),
+                 "one" (a single byte), "nosw" (status word missing),
+                 "sw-only" (9000 without the data), "data-1" (last data byte
+                 missing, 9000 kept)"""
+    fail = None
+
+    def execute(self, apdu):
+        rsp = isodep_card.T4App.execute(self, apdu)
+        if self.fail is None or rsp is None:
+            return rsp
+        k, mode, arg = self.fail
+        n = self.serial
+        if n < k:
+            return rsp
+        if mode == "silent":
+            self.dead = True
+            return None
+        if mode == "sw-from":
+            return bytes.fromhex(arg)
+        if n > k:
+            return rsp
+        if mode == "mute-once":
+            return None
+        if mode == "sw-once":
+            return bytes.fromhex(arg)
+        body, sw = rsp[:-2], rsp[-2:]
+        return {"empty": b"", "one": rsp[:1], "nosw": body, "sw-only": sw,
+                "data-1": body[:-1] + sw}[arg]
+
+
+STATUS_WORDS = ("6982", "6A82", "6700", "6F00", "6281")
+FAIL_MODES = [("silent", None), ("mute-once", None)] \
+    + [("sw-once", sw) for sw in STATUS_WORDS] \
+    + [("sw-from", sw) for sw in STATUS_WORDS] \
+    + [("short", a) for a in ("empty", "one", "nosw", "sw-only", "data-1")]
+
+
+def failat_cfgs(tier):
+    # thorough: also no retry budget (FWI 12) and one S(WTX) per command
+    extra = ((4, 0),) if tier == "quick" else ((4, 0), (12, 0), (4, 1))
+    for tech in ("A", "B"):
+        for ver in (0x10, 0x20, 0x30):
+            # (MLe, message length): data read in one / two / no READ BINARY
+            for mle, mlen in ((15, 20), (255, 40), (255, 0)):
+                for fsci, chunk in ((8, None), (2, 13)):
+                    for fwi, wtx in extra:
+                        yield {"tech": tech, "ver": ver, "mle": mle,
+                               "mlen": mlen, "fsci": fsci, "chunk": chunk,
+                               "fwi": fwi, "wtx": wtx}
+
+
+def failat_tag(cfg, fail):
+    msg = tc.message(cfg["mlen"], 7)
+    app = FailApp(cfg["ver"], cfg["mle"], 255, 64, 96, msg)
+    app.fail = fail
+    tag = isodep_card.T4Tag(app, cfg["tech"], cfg["fsci"], cfg["fwi"],
+                            cfg["chunk"], cfg["wtx"])
+    return app, tag, msg
+
+
+def failat_enum(tier, seed):
+    class _Ctx(object):
+        label = nontrivial = set_class = note = lambda self, *a: None
+    for cfg in failat_cfgs(tier):
+        # length of the undisturbed session (discovery, read, has_changed
+        # re-read) - the failure position runs over all of it and one beyond
+        app, tag, msg = failat_tag(cfg, None)
+        probe(_Ctx(), tag, 500)
+        for k in range(1, app.serial + 2):
+            for mode, arg in FAIL_MODES:
+                yield {"cfg": cfg, "fail": [k, mode, arg]}
+
+
+def run_failat(case, ctx):
+    cfg, fail = case["cfg"], case["fail"]
+    app, tag, msg = failat_tag(cfg, fail)
+    k, mode, arg = fail
+    ctx.set_class("t4t-failat/" + mode)
+    nl = app.nlen_size
+    stored = bytes(app.ndef_file[nl:nl + len(msg)])
+    seen = []
+
+    def check(o):
+        seen.append(bytes(o))
+        return None if bytes(o) == stored else \
+            "octets are not the message stored in the NDEF file"
+    probe(ctx, tag, 300 + 3 * 64, area=64 - nl, check_octets=check)
+    if app.serial >= k:
+        ctx.nontrivial()
+        cur = "-"
+        for serial, apdu in app.execlog[:k]:
+            what = "other"
+            if apdu[1:3] == b"\xA4\x04":
+                what, cur = "select-app", "-"
+            elif apdu[1:3] == b"\xA4\x00":
+                cur = apdu[5:7].hex().upper()
+                what = "select-" + cur
+            elif apdu[1] == 0xB0:
+                what = "read-" + cur
+        ctx.label("failed-at=" + what)
+        ctx.label("first-pass=%s" % ("ndef-object" if seen else "None"))
+    else:
+        ctx.label("failure-not-reached/%s" % ("ndef-object" if seen else
+                                              "None"))
+
+
 # --------------------------------------------------------------- scripted
 def blob(*lengths):
     return st.one_of(
@@ -614,4 +732,18 @@ LEGS = [
     _script_leg("t3t", 800, 30000),
     _script_leg("t4a", 800, 30000),
     _script_leg("t4b", 600, 20000),
+    Leg("t4t-failat", run=run_failat, enum=failat_enum, exhaustive=True,
+        shards_quick=4, shards_thorough=8,
+        rule="memory-backed Type 4A/4B tag with a valid NDEF application "
+             "(mapping version 1, 2, 3; MLe 15 / 255; message read with 0, "
+             "1, 2 READ BINARY; FSC 256 / 32 with 13-byte response chunks; "
+             "thorough also FWI 12 = no retries, one S(WTX) per command) "
+             "that fails at the k-th APDU of the session, for every k from "
+             "the first SELECT to the last READ BINARY of the has_changed "
+             "re-read and one beyond: gone silent from k on, APDU k never "
+             "answered, APDU k alone / every APDU from k on answered with "
+             "status 6982, 6A82, 6700, 6F00, 6281, answer k cut short (no "
+             "byte, one byte, no status word, no data, one data byte less). "
+             "C08 oracle, octets must equal the stored message; non-trivial "
+             "= the k-th APDU was reached."),
 ]
